@@ -15,6 +15,32 @@ use std::sync::Arc;
 pub enum Target {
     Req(usize),
     Unknown,
+    /// an id that no request carries but that is a look-alike (see `near_id`) of the id of request i; for the client it is
+    /// simply an unknown id
+    Near(usize, u8),
+}
+
+pub const NEAR_KINDS: u8 = 12;
+
+/// Look-alikes of a transaction id: ids that differ from it but coincide with it under some cheaper notion of equality
+/// (a fold of the 96 bits into a narrower word, a prefix or suffix, a byte-order-insensitive digest).
+pub fn near_id(id: [u8; 12], k: u8) -> [u8; 12] {
+    let mut x = id;
+    match k % NEAR_KINDS {
+        0 => { x[7] ^= 0x01; x[11] ^= 0x01; }                        // be64(id[0..8]) ^ be32(id[8..12])
+        1 => { for i in 4..8 { x[i] ^= 0xFF; x[i + 4] ^= 0xFF; } }   // the same, every bit of the low word
+        2 => { x[0] ^= 0x80; x[4] ^= 0x80; }                         // xor of three 32-bit words / be64 ^ (be32 << 32)
+        3 => { x[0] ^= 0x01; x[8] ^= 0x01; }                         // xor of three 32-bit words
+        4 => { x.rotate_left(4); if x == id { x[0] ^= 1; x[4] ^= 1; } }  // word-order-insensitive digests
+        5 => { x.reverse(); if x == id { x[0] ^= 1; x[11] ^= 1; } }  // byte-order-insensitive digests
+        6 => { x[11] ^= 0x01; }                                      // prefix comparison
+        7 => { x[0] ^= 0x01; }                                       // suffix comparison
+        8 => { x.swap(5, 6); if x == id { x[5] ^= 1; x[6] ^= 1; } }  // byte sums / xors
+        9 => { x[10] = x[10].wrapping_add(1); x[11] = x[11].wrapping_sub(1); } // additive byte fold
+        10 => { x[3] ^= 0x10; x[11] ^= 0x10; }                       // be32 ^ be64 (low word aligned the other way)
+        _ => { x[5] ^= 0x40; x[6] ^= 0x20; }                         // an ordinary two-byte corruption
+    }
+    x
 }
 
 #[derive(Clone, Debug, PartialEq, Eq, Hash, serde::Serialize, serde::Deserialize)]
@@ -122,6 +148,10 @@ pub fn bytes_for(w: &World, ev: &Event, delivered: &[Vec<u8>]) -> Option<Vec<u8>
                     None => build_reply(w, UNKNOWN_ID, None, reply),
                 },
                 Target::Unknown => build_reply(w, UNKNOWN_ID, None, reply),
+                Target::Near(i, k) => match w.reqs.get(*i) {
+                    Some(r) => build_reply(w, near_id(r.id, *k), Some(&r.first), reply),
+                    None => build_reply(w, UNKNOWN_ID, None, reply),
+                },
             };
             if reply.fp == super::server::RFp::ValueOfPrevious {
                 // the last four bytes (the FINGERPRINT value) are those of the previously delivered buffer, when that one
